@@ -190,7 +190,7 @@ def units(tier):
     # depth <= 2, all operator spellings
     for sh in shapes(2):
         nb, nu = count_ops(sh)
-        if nb + nu == 0 or nb + nu > (2 if q else 3):
+        if nb + nu == 0 or nb + nu > 2:
             continue
         for bops in _product([BIN_OPS] * nb):
             for uops in _product([UN_OPS] * nu):
@@ -200,14 +200,12 @@ def units(tier):
         # depth 3 over representative operators of every level
         for sh in shapes(3):
             nb, nu = count_ops(sh)
-            if nb + nu != 3 and nb + nu != 4:
-                continue
-            if nb + nu == 4 and nu > 1:
+            if nb + nu != 3:
                 continue
             for bops in _product([REP] * nb):
                 for uops in _product([[".not.", "-", ".inv."]] * nu):
                     idx += 1
-                    if nb + nu == 4 and idx % 7:
+                    if idx % 3:
                         continue
                     us.append(dict(h="prec", shape=sh, bops=bops, uops=uops, rot=idx, nlen=1, cost=5))
     return us
@@ -215,7 +213,7 @@ def units(tier):
 
 def meta(tier):
     q = tier == "quick"
-    return dict(bounds=dict(tree_depth=2 if q else 3, operators_per_tree=2 if q else "3 (all spellings); 3-4 at depth 3 over one or two operators per precedence level",
+    return dict(bounds=dict(tree_depth=2 if q else 3, operators_per_tree=2 if q else "2 over all spellings with 2-character names; 3 (every third combination) over one or two operators per precedence level, depth <= 3",
                             binary_operators=BIN_OPS, unary_operators=UN_OPS, operand_kinds=LEAF_KINDS,
                             symbolic="operand names, literal digits, exponent letter and sign, logical-literal case, string body, case of dotted operators"),
                 assumptions=["names differ from keywords/intrinsics", "expressions are rendered with single blanks or none around binary operators (both)"],
